@@ -8,6 +8,7 @@ CONSTANTS
   RejectChoices = {TRUE}
   MaxPairChoices = {0,2}
   Classes = {"A","N","W"}
+  PriorChoices = {"none","stale"}
   PlainStrats = {1}
   PairLevelOnly = FALSE
   Variant = "design"
